@@ -78,6 +78,10 @@ class ClassInfo:
                 self.assigns.append((st.target.id, st.value, st.annotation))
 
     @property
+    def is_namedtuple(self):
+        return any(b.split(".")[-1] == "NamedTuple" for b in self.base_exprs)
+
+    @property
     def is_dataclass(self):
         return any(d.split("(")[0] in ("dataclass", "dataclasses.dataclass") for d in self.decorators)
 
